@@ -11,7 +11,15 @@ import (
 
 // chanRole classifies a channel expression by what the API / struct layout says it is.
 func (p *Prog) chanRole(v ssa.Value) string {
-	return symChanRole(p.upChan(p.Sym(v), 0))
+	s := p.upChan(p.Sym(v), 0)
+	// the channel of a ticker that reached a private helper as an argument (iterate(ticker) ...
+	// case <-ticker.C) is that ticker's channel
+	if root, path, ok := s.FieldPath(); ok && len(path) == 1 && path[0] == "C" && root.Op == "param" {
+		if up := p.upParam(root, 0); up.String() != root.String() {
+			s = &Sym{Op: "field", Name: "C", Args: []*Sym{up}, V: s.V}
+		}
+	}
+	return symChanRole(s)
 }
 
 // upChan: a channel that reaches a private helper as an argument (send(dsc.output, item)) plays
